@@ -560,9 +560,8 @@ fn wraparound_histories(ctx: &Ctx) -> Report {
         }
     }
     // counts that are not next to a power of two: "every thousandth call" thresholds
-    for k in [999usize, 1000, 1001, 4999, 5000, 5001, 9999, 10_000, 10_001, 12_345, 20_000, 50_000, 99_999, 100_000, 100_001] {
-        ks.push(k);
-    }
+    let extra: Vec<usize> = ctx.tier.pick(vec![999, 1000, 1001, 5000, 10_000, 12_345], vec![999, 1000, 1001, 4999, 5000, 5001, 9999, 10_000, 10_001, 12_345, 20_000, 50_000, 99_999, 100_000, 100_001]);
+    ks.extend(extra);
     if ctx.tier == Tier::Quick {
         // quick: every window, both ends and the centre
         ks.retain(|&k| k < 300 || [0usize, 1, 2, 3].contains(&(((1usize << 16) + 1).wrapping_sub(k) % 7)) || (1usize << 16) / k >= 2);
@@ -660,8 +659,8 @@ fn large_diagram_pairs(ctx: &Ctx) -> Report {
     }
     // first queries: the optimisation queries, counts, node count, hashes; second queries: counts with the other
     // table, node count, a modular count, marginal MAP
-    let firsts: Vec<usize> = if ctx.tier == Tier::Quick { vec![8, 9, 10, 12, 0, 5] } else { vec![8, 9, 10, 12, 0, 1, 5, 6, 7] };
-    let seconds: Vec<usize> = if ctx.tier == Tier::Quick { vec![13, 5, 8] } else { vec![13, 5, 2, 8] };
+    let firsts: Vec<usize> = if ctx.tier == Tier::Quick { vec![8, 9, 10, 0] } else { vec![8, 9, 10, 12, 0, 1, 5, 6, 7] };
+    let seconds: Vec<usize> = if ctx.tier == Tier::Quick { vec![13, 5] } else { vec![13, 5, 2, 8] };
     let qs: Vec<Q> = (0..13).map(Q::Fixed).chain([Q::Wmc2]).collect();
     let sizes: Vec<usize> = ctx.tier.pick(vec![13, 15], vec![11, 12, 13, 14, 15, 16]);
     let mut items: Vec<(usize, u64, usize)> = Vec::new();
